@@ -81,7 +81,8 @@ def applyModel (d : Dir) (idx : Nat) (m : List String) (p : Array Pos) : Option 
       match v with
       | [enx, eny, exx, exy] =>
         match cursiveApply p i j d (rtl = "1") enx eny exx exy with
-        | .ok (q, _) => pure s!"ok 1 {j + 1} 1 {fmtPoss q}"
+        | .ok (some (q, _)) => pure s!"ok 1 {j + 1} 1 {fmtPoss q}"
+        | .ok none => pure unchanged
         | .error e => pure (errStr e)
       | _ => none
   | ["mark", gp, mx, my, bx, byy, applies] => do
@@ -91,7 +92,8 @@ def applyModel (d : Dir) (idx : Nat) (m : List String) (p : Array Pos) : Option 
       match v with
       | [mx, my, bx, byy] =>
         match markArrayApply p idx gp mx my bx byy with
-        | .ok q => pure s!"ok 1 {idx + 1} 1 {fmtPoss q}"
+        | .ok (some q) => pure s!"ok 1 {idx + 1} 1 {fmtPoss q}"
+        | .ok none => pure unchanged
         | .error e => pure (errStr e)
       | _ => none
   | ["single", xp, yp, xa, ya, applies] => do
@@ -123,7 +125,12 @@ def handle (ts : List String) : Option String :=
   match ts with
   | "gp" :: "prop" :: d :: len :: i :: ps => do
       let d ← parseDir d; let len ← len.toNat?; let i ← i.toNat?; let p ← parsePoss ps
-      match propagate (fuelFor p) p len i d with
+      match propagate p len i d MAX_NESTING_LEVEL with
+      | .ok (q, _) => pure s!"ok {fmtPoss q}"
+      | .error e => pure (errStr e)
+  | "gp" :: "propn" :: d :: len :: i :: nl :: ps => do       -- explicit nesting budget
+      let d ← parseDir d; let len ← len.toNat?; let i ← i.toNat?; let nl ← nl.toNat?; let p ← parsePoss ps
+      match propagate p len i d nl with
       | .ok (q, _) => pure s!"ok {fmtPoss q}"
       | .error e => pure (errStr e)
   | "gp" :: "finish" :: d :: len :: has :: ps => do
